@@ -307,9 +307,11 @@ def _range_worker(job):
     oc = [r for r in J.returns if r is not None and isinstance(r, type)]
     out, bad = 0, []
     eps = mp.mpf(10) ** (-40)
+    sym = []
     try:
         for label, cname, kinds, tc in J.cases():
             ctx, scal, sargs, coords, views = J.setup_case(cname, kinds, tc)
+            sym += _range_symbolic(J, oc, label, ctx, sargs, coords)
             rng = random.Random(hash((enginea.SEED, J.base_id, label, "range")) & 0xFFFFFFFF)
             for env in J.sample_points(ctx, rng, 4, tries=120):
                 try:
@@ -334,8 +336,46 @@ def _range_worker(job):
                                 dict(coordinate=viol[0], value=str(viol[1]), scalars=[str(x) for x in a], stored=[[str(c) for c in v] for v in vec], job=dict(pk=pk, mod=n, sig=enginea.sig_str(sig)))))
                     break
     except Exception as e:
-        return out, bad, f"{type(e).__name__}: {e}"
-    return out, bad, None
+        return out, bad, f"{type(e).__name__}: {e}", sym
+    return out, bad, None, sym
+
+
+def _range_symbolic(J, oc, label, ctx, sargs, coords):
+    """PROOF part of the range clause for vector-valued results: the real variant is executed symbolically under the case's
+    precondition; the returned phi / theta must be an angle whose *window* (interval of its linear form over the ranges of the
+    stored angles, or the window of `% (2 pi)`, arctan2, arccos) lies inside [-pi, pi] / [0, pi], and the returned rho must be
+    non-negative (sign class propagated along the computation, else z3).  Holds for all operand values of the case."""
+    from .. import enginea, modular, prover as PR
+    from ..symreal import A, Ang, PiMul, OutOfSubset
+    from ..views import AzimuthalRhoPhi, LongitudinalTheta
+    modular.ensure_installed()
+    tag = f"{J.pk}.{J.modname}[{enginea.sig_str(J.sig)}]{{{label}}}"
+    outl = []
+    try:
+        got = J.fn(enginea.LIB, *sargs, *[c for cs in coords for c in cs])
+    except OutOfSubset as e:
+        return [(f"C13/result-range/subset/{tag}", "unknown", "engine", f"left the verifiable subset: {e}")]
+    got = got if isinstance(got, tuple) else (got,)
+
+    def angle(name, val, lo, hi):
+        if isinstance(val, PiMul):
+            val = val.ang()
+        w = val.win() if isinstance(val, Ang) else None
+        if w is not None and w[0] >= lo and w[1] <= hi:
+            outl.append((f"C13/result-range/{name}/{tag}", "proved", "interval analysis of the angle's window", f"window {w[0]}*pi .. {w[1]}*pi"))
+        else:
+            outl.append((f"C13/result-range/{name}/{tag}", "unknown", "interval analysis of the angle's window", f"window {w} not inside [{lo}, {hi}]*pi"))
+    if oc and oc[0] is AzimuthalRhoPhi:
+        rho = A.of(got[0])
+        if rho.sign() in ("+", "0+", "0"):
+            outl.append((f"C13/result-range/rho/{tag}", "proved", "sign class propagated along the computation", rho.sign()))
+        else:
+            r = PR.prove(ctx, rho.rel(">="))
+            outl.append((f"C13/result-range/rho/{tag}", "proved" if r["status"] == "proved" else "unknown", r["by"], None))
+        angle("phi", got[1], -1, 1)
+    if len(oc) >= 2 and oc[1] is LongitudinalTheta:
+        angle("theta", got[2], 0, 1)
+    return outl
 
 
 def result_ranges(report, results, coverage):
@@ -351,8 +391,25 @@ def result_ranges(report, results, coverage):
     nev = sum(r[0] for r in res)
     bad = [b for r in res for b in r[1]]
     errs = [r[2] for r in res if r[2]]
-    coverage["bounded_result_ranges"] = dict(variants=len(jobs), evaluations=nev, failed=len(bad), engine_errors=len(errs), label="bounded (seeded points, 60 digits) - not counted as proved",
-                                             rule="every variant whose declared result stores phi or theta: stored phi in [-pi, pi], theta in [0, pi], rho >= 0 at up to 4 points per contract case")
+    sym = [o for r in res for o in r[3]]
+    refuted = {oid for oid, _ in bad}
+    proved = [o for o in sym if o[1] == "proved"]
+    coverage["obligations"] += len(sym)
+    coverage["obligations_posed"] = coverage.get("obligations_posed", 0) + len(sym)
+    coverage["discharged"] += len(proved)
+    for o in proved:
+        coverage["by_backend"][o[2]] = coverage["by_backend"].get(o[2], 0) + 1
+    for o in sym:
+        if o[1] != "proved" and o[0] not in refuted:
+            coverage["undecided"] = coverage.get("undecided", 0) + 1
+            report.undecided_obl(o[0], o[3] or "")
+    coverage["result_ranges"] = dict(variants=len(jobs), obligations=len(sym), discharged=len(proved),
+                                     rule="every variant whose declared result stores phi or theta, every contract case: returned phi in [-pi, pi], theta in [0, pi], rho >= 0 for ALL operand "
+                                          "values of the case - by the window of the returned angle (interval of its linear form / window of % 2pi, arctan2, arccos) and the sign class of rho (else z3)",
+                                     numeric_crosscheck=dict(evaluations=nev, failed=len(bad), engine_errors=len(errs), label="the same clause evaluated on the real functions at up to 4 seeded points "
+                                                             "per case (60 digits): refutes with a replayable input; never counted as proved"))
+    if errs:
+        coverage["result_ranges"]["engine_error_samples"] = errs[:3]
     groups = {}
     for oid, d in bad:
         groups.setdefault(oid.split("[")[0], []).append((oid, d))
